@@ -7,4 +7,4 @@ unset URWID_VERIF
 echo "== baseline doctests"
 timeout -k 5 600 /venv/bin/python -m pytest -q -p no:cacheprovider --timeout=900 --continue-on-collection-errors -o addopts="--doctest-modules" 2>&1 | tail -6
 echo "== tests/ (minus test_vterm.py)"
-timeout -k 5 600 /venv/bin/python -m pytest tests -q -p no:cacheprovider --timeout=20 -o addopts="" --deselect tests/test_vterm.py -x -q 2>&1 | grep -E "passed|failed|error" | tail -3
+timeout -k 5 600 /venv/bin/python -m pytest tests -p no:cacheprovider --timeout=20 -o addopts="" --deselect tests/test_vterm.py -W ignore 2>&1 | grep -E "^(FAILED|ERROR)|=====.*(passed|failed|error)" | tail -8
